@@ -313,6 +313,23 @@ func genCase(c *vh.Ctx) *txCase {
 		lclass = "limit=wide"
 		c.Count(wclass)
 	}
+	// refund*price and used*price steered exactly: a dry run at price 1 tells the refund and the gas used of this
+	// scenario, then the price is set so that refund*price (or used*price) lands at 2^64 / 2^128 -1, +0, +1, +2
+	if !wide && r.Intn(12) == 0 && (strings.HasPrefix(k.sc.name, "sstore-clear") || strings.HasPrefix(k.sc.name, "refund:") || r.Intn(4) == 0) {
+		k.limit = intr + k.sc.needGas
+		k.fullRun = true
+		if refund, used, ok := probe(k); ok {
+			T := new(big.Int).Lsh(big.NewInt(1), []uint{64, 64, 128}[r.Intn(3)])
+			f, fname := used, "used*price"
+			if refund > 0 && r.Intn(3) != 0 {
+				f, fname = refund, "refund*price"
+			}
+			k.price = Add(new(big.Int).Div(T, U(f)), big.NewInt(int64(r.Intn(4))-1))
+			wide = true
+			lclass = "limit=wide"
+			c.Count("width:" + fname + "(exact, from a dry run)")
+		}
+	}
 	if r.Intn(8) == 0 {
 		one := big.NewInt(1)
 		k.value = []*big.Int{Sub(new(big.Int).Lsh(one, 64), one), new(big.Int).Lsh(one, 64), new(big.Int).Lsh(one, 128), Sub(new(big.Int).Lsh(one, 256), one)}[r.Intn(4)]
@@ -468,6 +485,24 @@ func directedCase(i int) *txCase {
 	k.finish(k.cc.cfg.C.IsByzantium(new(big.Int).SetUint64(k.cc.num)))
 	k.class = "directed:" + sp.tag + ":" + k.class
 	return k
+}
+
+// probe runs the case's transaction once at gas price 1 with ample balance and pool and reports the refund applied
+// and the gas used (only used to choose the price of the real case)
+func probe(k *txCase) (refund, used uint64, ok bool) {
+	p := *k
+	p.price, p.txNonce, p.pool, p.cum = big.NewInt(1), k.stNonce, p.limit+1000000, 0
+	p.bal = Add(Add(U(p.limit), k.value), Big("1000000000000000000"))
+	p.coinbase = coinbase
+	p.finish(false)
+	sdb := BuildState(p.world)
+	gp := new(core.GasPool).AddGas(p.pool)
+	var u uint64
+	run := ApplyTx(p.cc.cfg.C, nil, p.header(), sdb, gp, &u, p.tx(), 0, p.u)
+	if run.Err != nil || run.Panic != nil || !run.T.Ended {
+		return 0, 0, false
+	}
+	return (p.limit - run.Receipt.GasUsed) - run.T.GasLeft, run.Receipt.GasUsed, run.Receipt.GasUsed > 0
 }
 
 func (k *txCase) tx() *types.Transaction {
